@@ -117,7 +117,28 @@ def conditions_of(st):
         cj = conjuncts(c)
         total += len(cj)
         out.extend(x for x in cj if not nothing_to_do(x))
-    return fn, out, total
+    # `x == 'a'` implies `x != 'b'`: the negative test of another arm of the
+    # same selection adds nothing (mutually exclusive arms may be written in
+    # any order)
+    eq = {}
+    for x in out:
+        if isinstance(x, ast.Compare) and len(x.ops) == 1 and isinstance(
+                x.ops[0], ast.Eq) and isinstance(x.comparators[0],
+                                                 ast.Constant):
+            eq.setdefault(ast.unparse(x.left), set()).add(
+                repr(x.comparators[0].value))
+    keep = []
+    for x in out:
+        if isinstance(x, ast.Compare) and len(x.ops) == 1 and isinstance(
+                x.ops[0], ast.NotEq) and isinstance(
+                    x.comparators[0], ast.Constant) and eq.get(
+                        ast.unparse(x.left)) and repr(
+                            x.comparators[0].value) not in eq[
+                                ast.unparse(x.left)]:
+            total -= 1
+            continue
+        keep.append(x)
+    return fn, keep, total
 
 
 # "there is something to do": conditions whose failure means an empty / all
